@@ -95,9 +95,9 @@ _SQH = 1.0 / math.sqrt(2.0)
 def const_from_float(x):
     """Exact element for a python float met in arithmetic.
 
-    Floats that are (within 4 ulp) a power (1/sqrt 2)^k, k odd <= 39, are the
-    algebraic constant R(1/2)^k (the code computes `1/np.sqrt(2)`); every other
-    float is its exact dyadic rational value."""
+    Floats that are (within a few ulp) a power (1/sqrt 2)^k, 1 <= k <= 60, are the
+    algebraic constant sqrt(1/2)^k (the code computes `1/np.sqrt(2)` and float
+    products of it); every other float is its exact dyadic rational value."""
     if x == 0.0:
         return ZERO
     if x != x or x in (math.inf, -math.inf):
@@ -107,10 +107,13 @@ def const_from_float(x):
     ax = abs(x)
     if ax < 1.0:
         k = round(math.log(ax) / math.log(_SQH))
-        if 0 < k <= 40 and k % 2 == 1:
+        if 0 < k <= 60:
             ref = _SQH ** k
             if abs(ax - ref) <= 8 * math.ulp(ref) * max(1, k):
-                r = sqrt_half() * Fr(1, 2 ** (k // 2))
+                if k % 2 == 1:
+                    r = sqrt_half() * Fr(1, 2 ** (k // 2))
+                else:
+                    r = P.const(Fr(1, 2 ** (k // 2)))
                 return r if x > 0 else -r
     return P.const(Fr(x))
 
